@@ -52,8 +52,9 @@ def backend_with(cls_pipe=None, fmt_pipe=None):
     return type("ComposeBackend", (TextQueryTestBackend,), attrs)
 
 
-def _convert(backend, fmt="default"):
+def _convert(backend, fmt="default", via_rule=False):
     from sigma.collection import SigmaCollection
+    from sigma.rule import SigmaRule
     from sigma.exceptions import SigmaError
     import copy
 
@@ -61,7 +62,10 @@ def _convert(backend, fmt="default"):
     try:
         outs = []
         for p in PROBES:
-            o = backend.convert(SigmaCollection.from_dicts([copy.deepcopy(p)]), fmt)
+            if via_rule:
+                o = backend.convert_rule(SigmaRule.from_dict(copy.deepcopy(p)), fmt)
+            else:
+                o = backend.convert(SigmaCollection.from_dicts([copy.deepcopy(p)]), fmt)
             outs.append([cps(o)] if isinstance(o, str) else [cps(q) for q in o])
         r["out"] = outs
         r["ok"] = True
@@ -99,36 +103,60 @@ def drive_case(case):
     fmt = "default"
     Plain = backend_with()
     applied = []
-    if op == "sum":
-        composed = _eval_tree(case["tree"], pipes)
-        b = Plain(composed)
-    elif op == "resolve":
-        res = ProcessingPipelineResolver({f"p{pool[i - 1]['name']}": p for i, p in zip(ops, pipes)})
-        composed = res.resolve([f"p{pool[i - 1]['name']}" for i in ops])
-        b = Plain(composed)
-    elif op == "backend":
-        b = backend_with(pipes[0], pipes[2])(pipes[1])
-        fmt = "test"
+    compose_error = None
+    composed = None
+    b = None
+    try:
+        if op == "sum":
+            composed = _eval_tree(case["tree"], pipes)
+            b = Plain(composed)
+        elif op == "resolve":
+            res = ProcessingPipelineResolver({f"p{pool[i - 1]['name']}": p for i, p in zip(ops, pipes)})
+            composed = res.resolve([f"p{pool[i - 1]['name']}" for i in ops])
+            b = Plain(composed)
+        elif op == "backend":
+            b = backend_with(pipes[0], pipes[2])(pipes[1])
+            fmt = "test"
+            composed = None
+        elif op == "backend_switch":
+            b = backend_with(pipes[0], pipes[2])(pipes[1])
+            _convert(b, "default")  # an earlier conversion in another format
+            fmt = "test"
+            composed = None
+        elif op == "reuse_sum_again":
+            first = pipes[0] + pipes[1]
+            composed = pipes[0] + pipes[1]
+            b = Plain(composed)
+        elif op == "reuse_first_sum":
+            composed = pipes[0] + pipes[1]
+            _second = pipes[0] + pipes[1]
+            b = Plain(composed)
+        elif op == "reuse_operand":
+            _sum = pipes[0] + pipes[1]
+            composed = pipes[0]
+            b = Plain(composed)
+        elif op == "resolve_defs_twice":  # the resolver is given generators that load the SAME definition dicts each time
+            from sigma.processing.pipeline import ProcessingPipeline
+
+            defs = {f"p{pool[i - 1]['name']}": def_dict(pool[i - 1]) for i in ops}
+            res = ProcessingPipelineResolver({n: (lambda d=d: ProcessingPipeline.from_dict(d)) for n, d in defs.items()})
+            names = [f"p{pool[i - 1]['name']}" for i in ops]
+            _first = res.resolve(names)
+            composed = res.resolve(list(reversed(names)))
+            b = Plain(composed)
+        else:  # resolve_twice
+            res = ProcessingPipelineResolver({f"p{pool[i - 1]['name']}": p for i, p in zip(ops, pipes)})
+            names = [f"p{pool[i - 1]['name']}" for i in ops]
+            _first = res.resolve(names)
+            composed = res.resolve(list(reversed(names)))
+            b = Plain(composed)
+    except Exception as e:  # noqa: BLE001  composing the pipelines failed: that is the observation
+        from sigma.exceptions import SigmaError
+
+        compose_error = {"ok": False, "out": [], "exc": type(e).__name__, "sigma": isinstance(e, SigmaError)}
         composed = None
-    elif op == "reuse_sum_again":
-        first = pipes[0] + pipes[1]
-        composed = pipes[0] + pipes[1]
-        b = Plain(composed)
-    elif op == "reuse_first_sum":
-        composed = pipes[0] + pipes[1]
-        _second = pipes[0] + pipes[1]
-        b = Plain(composed)
-    elif op == "reuse_operand":
-        _sum = pipes[0] + pipes[1]
-        composed = pipes[0]
-        b = Plain(composed)
-    else:  # resolve_twice
-        res = ProcessingPipelineResolver({f"p{pool[i - 1]['name']}": p for i, p in zip(ops, pipes)})
-        names = [f"p{pool[i - 1]['name']}" for i in ops]
-        _first = res.resolve(names)
-        composed = res.resolve(list(reversed(names)))
-        b = Plain(composed)
-    got = _convert(b, fmt)
+    via_rule = op == "backend_switch"
+    got = compose_error or _convert(b, fmt, via_rule)
     state_after = _apply_state(composed) if composed is not None else []
     vars_ = sorted((int(k[1:]), v) for k, v in (composed.vars.items() if composed is not None else []) if k.startswith("k") and k[1:].isdigit())
     last = getattr(b, "last_processing_pipeline", None)
@@ -136,9 +164,9 @@ def drive_case(case):
     # reference: ONE pipeline with the definition the spec demands, on fresh objects
     refdef = dict(case["ref"], name=99)
     rb = Plain(mkpipe(refdef))
-    ref = _convert(rb, fmt)
+    ref = _convert(rb, fmt, via_rule)
     ref_applied = list(rb.last_processing_pipeline.applied) if getattr(rb, "last_processing_pipeline", None) is not None else []
-    raw = _convert(Plain(mkpipe(refdef, with_stages=False)), fmt)
+    raw = _convert(Plain(mkpipe(refdef, with_stages=False)), fmt, via_rule)
     ref_state = _apply_state(mkpipe(refdef)) if composed is not None else []
     return {
         "id": case["id"],
